@@ -68,6 +68,7 @@ var libPathPool = []struct{ path, name string }{
 	{"vendor/golang.org/x/net/idna", "idna"},                            // GOROOT-style vendoring: the path starts with vendor/
 	{"corp/render.v2/util", "util"},                                     // a dot below the first path element, none in it
 	{"example.com/root/vendor/example.com/mid/vendor/x.y/leaf", "leaf"}, // vendored by a vendored package
+	{"example.com/shop/vendor", "vendor"},                               // the last path element is "vendor": nothing to strip
 }
 
 func libSrc(name string, k int) string {
